@@ -285,9 +285,10 @@ def weave_normalize(w, sc):
         i, j = arm(w, r"^        %s\((\w+), (\w+)\) => \{$" % kind)
         t1, t2 = re.match(r"^        %s\((\w+), (\w+)\) => \{$" % kind, w.lines[i]).groups()
         locs = normalized_locals(w, i, j)
-        if len(locs) != 2 or locs[0][2] != t1 or locs[1][2] != t2:
-            raise LostAnchor(f"{w._where(i)}: {kind} arm: expected the two operands to be normalised in order")
-        insert_at(w, locs[1][0] + 1, sc["normalize_weak_head.binary"].replace("$KIND", kind).replace("$T1", t1).replace("$T2", t2).replace("$N1", locs[0][1]).replace("$N2", locs[1][1]), anchor=f"{kind}: after both operands are normalised")
+        if len(locs) != 2:
+            raise LostAnchor(f"{w._where(i)}: {kind} arm: expected two normalised operands")
+        # the hint speaks about the terms that ARE normalised (if they are not the two operands, in order, the postcondition fails)
+        insert_at(w, locs[1][0] + 1, sc["normalize_weak_head.binary"].replace("$KIND", kind).replace("$T1", locs[0][2]).replace("$T2", locs[1][2]).replace("$N1", locs[0][1]).replace("$N2", locs[1][1]), anchor=f"{kind}: after both operands are normalised")
     # conditional
     i, j = arm(w, r"^        If\(condition, then_branch, else_branch\) => \{$")
     locs = normalized_locals(w, i, j)
